@@ -145,6 +145,41 @@ def run(ctx):
             got = docs_of(res)
             if got != want:
                 ctx.violate("roundtrip", "package-differs", _pkg_diff(want, got))
+    # ---- history: mutate an extension of the package (same definition counts), encode again -----------
+    if pkg.extensions and ch.coin(1, 2, "re-encode-after-mutation"):
+        from hugr import ext as hext
+        from hugr import tys
+        e = pkg.extensions[ch.draw(len(pkg.extensions), "which-ext")]
+        m = ch.draw(4, "mutation")
+        if m == 0 and e.operations:
+            k = ch.pick(sorted(e.operations), "which-op")
+            e.add_op_def(hext.OpDef(k, hext.OpDefSig(tys.FunctionType([tys.Qubit], [])), "replaced definition"))
+            what = f"re-add op {k}"
+        elif m == 1 and e.operations:
+            k = ch.pick(sorted(e.operations), "which-op")
+            e.operations[k].description = "edited in place"
+            e.operations[k].misc["edited"] = True
+            what = f"edit op {k} in place"
+        elif m == 2 and e.types:
+            k = ch.pick(sorted(e.types), "which-type")
+            e.add_type_def(hext.TypeDef(k, "replaced type", [], hext.ExplicitBound(tys.TypeBound.Any)))
+            what = f"re-add type {k}"
+        else:
+            e.runtime_reqs = set(sorted(e.runtime_reqs)[1:]) | {"swapped.req"}
+            what = "swap a requirement"
+        ctx.steps += 1
+        same_obj = ch.coin(1, 2, "same-package-object")
+        pkg2 = pkg if same_obj else Package(list(pkg.modules), list(pkg.extensions))
+        ctx.ev("writer", "mutate+to_bytes", {"mutation": what, "same_package_object": same_obj})
+        ctx.probe("re_encoded_after_mutation")
+        want2 = docs_of(pkg2)
+        kind, res = decode(pkg2.to_bytes(cfg))
+        ctx.checked("roundtrip-after-mutation")
+        if kind != "ok":
+            ctx.violate("roundtrip", f"from_bytes-raised-after-mutation:{kind}", {"mutation": what, "msg": str(res)})
+        elif docs_of(res) != want2:
+            ctx.violate("roundtrip", "package-differs-after-mutation", dict(_pkg_diff(want2, docs_of(res)), mutation=what))
+        want = want2
     # text form
     ctx.checked("text")
     try:
